@@ -154,7 +154,7 @@ def gen_world(seed, classes=ALL_CLASSES, want_constraints=0.3, node_p=0.25, tag=
             cons = gen.subpath_constraints(rng, g)
         if cons:
             args[cons_key] = cons
-            cov = rng.choice([1, 1, 0.75, 0.5])
+            cov = rng.choice([1, 1, 0.75, 0.5, 0.4, 0.6, 0.9])
             crossed = False
             crossed_front = False
             if not node_mode and rng.random() < 0.6:
@@ -204,7 +204,9 @@ def gen_world(seed, classes=ALL_CLASSES, want_constraints=0.3, node_p=0.25, tag=
                     longest = max(len(c) for c in cons)
                     shortest = min(len(c) for c in cons)
                     # a fraction that the generating route still reaches for every constraint
-                    cov = 0.5 if shortest <= 3 else rng.choice([0.5, 0.75])
+                    cov = rng.choice([0.5, 0.4]) if shortest <= 3 else rng.choice([0.5, 0.75, 0.6, 0.7])
+                    if shortest == 3 and rng.random() < 0.5:
+                        cov = 0.6       # 0.6 * 3 = 1.8: two of the three edges are needed
             if g.get("_constraint_has_unused_edge") and not crossed:
                 # the unused (zero-flow) edge need not be covered
                 cov = 0.5 if len(cons[0]) <= 3 else 0.75
@@ -244,6 +246,8 @@ def gen_world(seed, classes=ALL_CLASSES, want_constraints=0.3, node_p=0.25, tag=
     if dag and not node_mode and cons_key not in args and g.get("hub_pairs") and rng.random() < want_constraints + 0.3:
         pair = rng.choice(g["hub_pairs"])
         args[cons_key] = [pair]
+        g = dict(g)
+        g["hub_pairs_used"] = True
         if rng.random() < 0.5:
             args[cons_key + "_coverage"] = 0.5
         else:
@@ -292,6 +296,15 @@ def gen_world(seed, classes=ALL_CLASSES, want_constraints=0.3, node_p=0.25, tag=
         args["max_num_paths"] = nroutes + 1
         args["stop_on_first_feasible"] = True
     world = {"class": cname, "graph": graph, "args": args}
+    # is the instance feasible by construction?  the generating routes are a solution that satisfies every
+    # constraint to the requested fraction whenever k admits them (used by C10's feasibility clause)
+    world["constructed_feasible"] = bool(
+        g.get("routes") and not g.get("hub_pairs_used") and
+        (dag or (wt == "int" and base in ("kFlowDecompCycles", "MinFlowDecompCycles", "kPathCoverCycles", "MinPathCoverCycles"))) and
+        (args.get("k") is None or args["k"] >= len(g["routes"])) and
+        (not base.startswith("Min") or len(g["routes"]) < len(graph["edges"])) and
+        not args.get("additional_starts") and not args.get("additional_ends") and
+        (flow_decomp is False or True))
     return world
 
 
